@@ -17,6 +17,7 @@ THEOREMS = [
     ("EG.props.C01", "C01_unknown_backend_503"),
     ("EG.props.C01", "C01_match_all_header_semantics"),
     ("EG.props.C01", "C01_port_ignored"),
+    ("EG.props.C01", "C01_host_exact"),
     ("EG.props.C01", "C01_valid_never_panics"),
     ("EG.props.C01", "C01_mapper_history_503"),
     ("EG.props.C01", "C01_mapper_history_dispatch"),
